@@ -196,11 +196,12 @@ def run_query(lat, q):
     raise ValueError(q)
 
 
-def run_queries(case):
+def run_queries(case, lat=None):
     """-> (lat, answers) ; answers[k] = canonical answer or {'raised': 'ExcName'}."""
     with warnings.catch_warnings():
         warnings.simplefilter('ignore')
-        lat = build_real(case)
+        if lat is None:
+            lat = build_real(case)
         out = []
         for q in case['q']:
             try:
@@ -573,4 +574,107 @@ def oracle_model_coupling(case, geo, u1, u2, dx):
     if got != exp:
         return 'add_coupling.terms-differ-from-bruteforce', \
             f'u1={u1} u2={u2} dx={dx}: got {sorted(got.items())[:5]} expected {sorted(exp.items())[:5]}'
+    return None
+
+
+# ---------------------------------------------------------------------------------------------
+# reference for the documented meaning of an ordering specification (independent of get_order)
+
+
+def _ref_standard(shape, snake, priority):
+    """Documented meaning of ('standard', snake_winding, priority): nested loops over the directions, the direction
+    with the highest priority increasing fastest (priority None: C-style, last direction fastest); a direction with
+    snake winding is walked forth and back, i.e. each time the next slower direction advances, the whole path through
+    this and all faster directions is traversed in reverse."""
+    n = len(shape)
+    prio = list(range(n)) if priority is None else list(priority)
+    dirs = sorted(range(n), key=lambda d: prio[d])  # slowest ... fastest
+
+    def path(k):
+        if k == n:
+            return [dict()]
+        d = dirs[k]
+        inner = path(k + 1)
+        rev = k + 1 < n and bool(snake[dirs[k + 1]])
+        out = []
+        for x in range(shape[d]):
+            blk = inner[::-1] if (rev and x % 2 == 1) else inner
+            for r in blk:
+                r2 = dict(r)
+                r2[d] = x
+                out.append(r2)
+        return out
+    return [[r[d] for d in range(n)] for r in path(0)]
+
+
+def _ref_folded(L):
+    out, lo, hi = [], 0, L - 1
+    while lo < hi:
+        out += [lo, hi]
+        lo, hi = lo + 1, hi - 1
+    if lo == hi:
+        out.append(lo)
+    return out
+
+
+def reference_order(case):
+    """-> list of rows, or None when no independent reference is implemented for this specification"""
+    if case.get('variant'):
+        return None
+    cls, Ls, Lu, spec = case['cls'], case['Ls'], case['Lu'], case['order']
+    shape = list(Ls) + [Lu]
+    n = len(shape)
+    if 'standard' in spec:
+        snake, prio = spec['standard']
+        snake = list(snake)
+        if cls in SIMPLE:  # given for the spatial directions only; the (single-site) unit cell is the fastest one
+            snake = snake + [False]
+            prio = list(prio) + [max(prio) + 1]
+        return _ref_standard(shape, snake, prio)
+    if 'grouped' in spec:
+        groups, prio = spec['grouped']
+        if prio is not None or n < 3:
+            return None
+        # first within a group, then along the last spatial direction, then the next group, then C-style the rest
+        rows = []
+        for xs in itertools.product(*[range(L) for L in shape[:-2]]):
+            for gr in groups:
+                for y in range(shape[-2]):
+                    for g in gr:
+                        rows.append(list(xs) + [y, g])
+        return rows
+    name = spec.get('name')
+    if name is None:
+        return None
+    if cls in ('Chain', 'Ladder', 'NLegLadder') and name in ('default', 'folded'):
+        xs = list(range(Ls[0])) if name == 'default' else _ref_folded(Ls[0])
+        return [[x, u] for x in xs for u in range(Lu)]
+    if cls == 'Honeycomb' and name in ('default', 'rings'):
+        return _ref_standard(shape, [False] * 3, [0, 2, 1])
+    if cls == 'Honeycomb' and name in ('snake', 'snake_rings'):
+        return _ref_standard(shape, [False, False, True], [0, 2, 1])
+    if cls == 'Kagome' and name == 'rings':
+        return reference_order(dict(case, order={'grouped': [[[0, 2], [1]], None]}))
+    if name in ('default', 'Cstyle'):
+        return _ref_standard(shape, [False] * n, None)
+    if name == 'Fstyle':
+        return _ref_standard(shape, [False] * n, list(range(n - 1, -1, -1)))
+    if name in ('snake', 'snakeCstyle'):
+        return _ref_standard(shape, [True] * n, None)
+    if name == 'snakeFstyle':
+        return _ref_standard(shape, [True] * n, list(range(n - 1, -1, -1)))
+    return None
+
+
+def oracle_order_spec(case, lat):
+    """the order really is the documented path of its specification"""
+    ref = reference_order(case)
+    if ref is None:
+        return None
+    got = _rows(lat.order, lat.dim + 1)
+    if got != ref:
+        k = next((i for i, (a, b) in enumerate(zip(got, ref)) if a != b), min(len(got), len(ref)))
+        kind = next(iter(case['order']))
+        return f'order.not-the-documented-path[{kind}]', \
+            f'{case["order"]}: row {k} is {got[k] if k < len(got) else None}, documented {ref[k] if k < len(ref) else None}'
     return None
